@@ -192,4 +192,18 @@ example : (opCheck (onChannelClose two 0 404) 1).1 = none := by decide
 example : (opCheck (onConnClosePrefix two 320 1) 1).1 = some (.conn (some 320)) := by decide
 example : (opCheck (onReturn { chans := [{}] } 0 312) 0).1 = some (.msg 312) := by decide
 
+/-- a returned mandatory message belongs to the publish that caused it: on a confirming channel the
+    check that raises it (`check_for_exceptions` in `_publish_confirm`) runs while the publisher still
+    holds the channel's RPC lock, so no other publisher's error check can take it first -/
+theorem skel_Basic_publish : Gen.Skel.Basic_publish =
+  ["call:_validate_publish_parameters", "call:_handle_utf8_payload", "for",
+    "call:_create_content_body", "do", "call:frames_out.append", "endfor", "if",
+    "r:confirming_deliveries", "then", "acq:_channel.rpc.lock", "call:_publish_confirm",
+    "return", "rel:_channel.rpc.lock", "endif", "call:_channel.write_frames"] := by decide
+
+theorem skel_Basic__publish_confirm : Gen.Skel.Basic__publish_confirm =
+  ["call:_channel.rpc.register_request", "call:_channel.write_frames",
+    "call:_channel.rpc.get_request", "if", "then", "call:_channel.check_for_exceptions",
+    "endif", "if", "then", "return", "endif", "return"] := by decide
+
 end Amqp.C07
